@@ -69,8 +69,8 @@ Section WithCodec.
     exists s dur, run dec_m h = Ok s /\ Inv s dur /\ incl dur (hist_bulks h) /\
                   s_acked s = acked_of h /\ s_tried s = tried_of h.
   Proof.
-    intros h (Hwf & _ & Hff).
-    destruct (run_inv dec_m dec_d h st0 [] (inv0 dec_m dec_d) Hwf Hff) as (s & ext & Hr & HI & Hin).
+    intros h (Hwf & _).
+    destruct (run_inv dec_m dec_d h st0 [] (inv0 dec_m dec_d) Hwf) as (s & ext & Hr & HI & Hin).
     exists s, ext. cbn [app] in HI.
     split; [exact Hr |]. split; [exact HI |]. split; [exact Hin |]. split.
     - destruct (run_ghost dec_m h st0 s Hr) as (Ha & _). exact Ha.
@@ -135,12 +135,11 @@ Section WithCodec.
        (forall b d, In b (hist_bulks h') -> In d (b_docs b) -> d_id d <> id) ->
        fetch dec_d (s_disk s') p' id = Absent /\ (forall t, ~ In id (search p' t))).
   Proof.
-    intros h h' s p s' p' (Hwf & Hfun & Hff) Hr Hp Hr' Hp'.
-    apply Forall_app in Hff. destruct Hff as (Hff1 & Hff2).
+    intros h h' s p s' p' (Hwf & Hfun) Hr Hp Hr' Hp'.
     rewrite hist_bulks_app in Hwf, Hfun. apply Forall_app in Hwf. destruct Hwf as (Hw1 & Hw2).
-    destruct (run_inv dec_m dec_d h st0 [] (inv0 dec_m dec_d) Hw1 Hff1) as (s1 & dur & Hr1 & HI & Hin).
+    destruct (run_inv dec_m dec_d h st0 [] (inv0 dec_m dec_d) Hw1) as (s1 & dur & Hr1 & HI & Hin).
     unfold run in Hr. rewrite Hr in Hr1. inversion Hr1; subst s1. clear Hr1. cbn [app] in HI.
-    destruct (run_inv dec_m dec_d h' s dur HI Hw2 Hff2) as (s2 & ext & Hr2 & HI2 & Hin2).
+    destruct (run_inv dec_m dec_d h' s dur HI Hw2) as (s2 & ext & Hr2 & HI2 & Hin2).
     unfold run in Hr'. rewrite (run_from_app dec_m h h' st0 s Hr) in Hr'.
     rewrite Hr' in Hr2. inversion Hr2; subst s2. clear Hr2.
     assert (Hall : incl (dur ++ ext) (hist_bulks h ++ hist_bulks h'))
